@@ -1836,3 +1836,69 @@ where
 
     Ok(all_mmcs_op_ids)
 }
+
+/// Public wrappers over this module's private gadget functions, for the external
+/// verification harness. Compiled only with the `verif-hooks` feature.
+#[cfg(feature = "verif-hooks")]
+pub mod verif_hooks {
+    use alloc::collections::BTreeMap;
+
+    use p3_circuit::CircuitBuilder;
+    use p3_field::{ExtensionField, Field, TwoAdicField};
+
+    use crate::Target;
+
+    pub fn evaluate_polynomial<EF: Field>(
+        builder: &mut CircuitBuilder<EF>,
+        coefficients: &[Target],
+        point: Target,
+    ) -> Target {
+        super::evaluate_polynomial(builder, coefficients, point)
+    }
+
+    pub fn circuit_exp_by_constant<EF: Field>(
+        builder: &mut CircuitBuilder<EF>,
+        base: Target,
+        n: usize,
+    ) -> Target {
+        super::circuit_exp_by_constant(builder, base, n)
+    }
+
+    pub fn compute_final_query_point<F, EF>(
+        builder: &mut CircuitBuilder<EF>,
+        index_bits: &[Target],
+        log_max_height: usize,
+        total_bits_consumed: usize,
+        powers_of_g: &[Target],
+    ) -> Target
+    where
+        F: Field + TwoAdicField,
+        EF: ExtensionField<F>,
+    {
+        super::compute_final_query_point::<F, EF>(
+            builder,
+            index_bits,
+            log_max_height,
+            total_bits_consumed,
+            powers_of_g,
+        )
+    }
+
+    pub fn precompute_evaluation_points<F, EF>(
+        builder: &mut CircuitBuilder<EF>,
+        unique_heights_desc: &[usize],
+        index_bits: &[Target],
+        log_global_max_height: usize,
+    ) -> BTreeMap<usize, Target>
+    where
+        F: Field + TwoAdicField,
+        EF: ExtensionField<F>,
+    {
+        super::precompute_evaluation_points::<F, EF>(
+            builder,
+            unique_heights_desc,
+            index_bits,
+            log_global_max_height,
+        )
+    }
+}
